@@ -179,6 +179,15 @@ def check_case(case) -> Outcome:
                 out.add('import:links-differ', f'{sorted(pairwise_links(sb))} != {sorted(pairwise_links(so))}')
     # ---- attack graph export ------------------------------------------------------------------------------
     STORE['nodes'], STORE['rels'], STORE['log'] = [], [], []
+    for i in case.get('ag_removals', []):
+        # node ids with gaps (as after pruning): positions in graph.nodes and ids no longer coincide
+        if len(g.nodes) > 1:
+            try:
+                g.remove_node(g.nodes[i % len(g.nodes)])
+                out.classes.append('attack-graph-with-id-gaps')
+            except Exception as e:
+                out.classes.append('skipped:remove_node:' + type(e).__name__)
+                return out
     try:
         neo.ingest_attack_graph(g, 'bolt://x', 'u', 'p', 'db', delete=True)
     except HarnessError:
@@ -237,6 +246,7 @@ def cases(draw):
     c = draw(lang_and_model({'max_assets': 4, 'max_expr_depth': 2, 'arith_ttc': False},
                             {'max_assets': 6, 'attackers': False, 'explicit_ids': True, 'min_assets': 1,
                              'max_links_per_assoc': 3}))
+    c['ag_removals'] = draw(st.lists(st.integers(0, 30), max_size=3))
     return c
 
 
@@ -245,7 +255,7 @@ def corelang_cases(draw):
     from ..modelgen import _restrict, shipped_spec
     pool = draw(corelang_pool(2, 4))
     m = draw(models(_restrict(shipped_spec(), pool), max_assets=5, attackers=False, explicit_ids=True, min_assets=1))
-    return {'lang': 'corelang', 'pool': pool, 'model': m}
+    return {'lang': 'corelang', 'pool': pool, 'model': m, 'ag_removals': draw(st.lists(st.integers(0, 30), max_size=2))}
 
 
 CLAUSES = [
